@@ -174,16 +174,19 @@ theorem W_rec (K IV : Vector U32 4) {i : Nat} (h : 16 ≤ i) :
   Kernel-checked (`decide`) anchors for the notation: ⊟, the byte selection of h1/h2, the
   rotation directions, the first expanded word.
 
-  The test vectors of the paper (section 5 / appendix "Test vectors of HC-128": the first
-  keystream words for three key/IV pairs) need the whole initialisation (1264 expansion
-  steps and 1024 set-up steps).  Kernel evaluation of that (`decide +kernel`) was tried and
-  is far too slow: the kernel evaluates call-by-name, `W … 400` alone takes about 50 s and
-  the time grows faster than quadratically in the index.  They are therefore checked with
-  `#guard`, i.e. by the compiler's evaluator when this file is built: a mismatch fails
-  the build, but these three checks are tests, not kernel-checked theorems.  (No theorem
-  depends on them.)  The fourth `#guard` uses values from the `rand_hc` test-suite (not
-  from the paper) for positions 1616 … 1619, which lie in a Q phase of the second pass
-  through the tables.
+  The test vectors of the paper ("Test vectors of HC-128": the first keystream words for
+  three key/IV pairs) need the whole initialisation (1264 expansion steps and 1024 set-up
+  steps).  Direct kernel evaluation of `keystream` (`decide +kernel`) is far too slow: the
+  kernel evaluates call-by-name on `Array`/closure data, `W … 400` alone takes about 50 s
+  and the time grows faster than quadratically in the index.  Two substitutes:
+    * here, `#guard`: evaluated by the compiler's evaluator when this file is built (a
+      mismatch fails the build; these are tests, not theorems, and nothing depends on them);
+    * in `Rngs/Lib/Hc128Packed.lean`: a second evaluator with bit-packed tables is proved
+      equal to `keystream` for all inputs, and the kernel runs *that* in a few seconds:
+      `Rngs.Hc128R.Packed.test_vector_1/2/3` and `test_positions_1616` are kernel-checked
+      theorems stating exactly the four `#guard` facts below about `keystream`.
+  The fourth check uses values from the `rand_hc` test-suite (not from the paper) for
+  positions 1616 … 1619, which lie in a Q phase of the second pass through the tables.
 -/
 
 example : (0 ⊟ 3) = 509 ∧ (5 ⊟ 10) = 507 ∧ (5 ⊟ 511) = 6 ∧ (511 ⊟ 511) = 0 ∧ (12 ⊟ 12) = 0 := by
